@@ -394,6 +394,19 @@ func bvbin(op string, a, b *Term) *Term {
 	if op == "bvadd" || op == "bvsub" {
 		return linNorm(op, a, b)
 	}
+	// signed division / remainder by a positive power of two (Go truncates towards zero)
+	if (op == "bvsrem" || op == "bvsdiv") && b.IsLit() && b.Signed().Sign() > 0 {
+		if k := b.Val.TrailingZeroBits(); new(big.Int).Lsh(big.NewInt(1), k).Cmp(b.Val) == 0 && k > 0 {
+			neg := bvcmp("bvslt", a, BVLit64(0, w))
+			na := BVNeg(a)
+			if op == "bvsrem" {
+				m := BVLit(new(big.Int).Sub(b.Val, big.NewInt(1)), w)
+				return Ite(neg, BVNeg(bvbin("bvand", na, m)), bvbin("bvand", a, m))
+			}
+			sh := BVLit64(uint64(k), w)
+			return Ite(neg, BVNeg(bvbin("bvlshr", na, sh)), bvbin("bvlshr", a, sh))
+		}
+	}
 	// unsigned division / remainder by a power of two: shift / mask (no division circuit for the solver)
 	if (op == "bvurem" || op == "bvudiv") && b.IsLit() && b.Val.Sign() > 0 {
 		if k := b.Val.TrailingZeroBits(); new(big.Int).Lsh(big.NewInt(1), k).Cmp(b.Val) == 0 {
